@@ -1,10 +1,15 @@
 import PnVerif.Model.HeaderText
+import PnVerif.Model.Safety
 /-
   C04 correspondence driver.  One request per line on stdin, one answer per line on stdout.
 
     ENC <schema>            -> <hex of Header.encodeRaw> <Hdr.len> <offset of dim tag> <gatt tag> <var tag>
     VARIANT <0|1>           -> 1: the tree carries the repair of finding FB2-1 (compute_var_shape sets begin_var =
                                begin_rec = xsz when there is no variable); answers VARIANT <0|1>.  Default 0.
+    REPAIRS <int63> <eof>   -> which repairs of the C19 findings the tree carries (0|1 each; Safety.Variant: int63 = 64-bit
+                               header fields with the sign bit set / begin+len beyond 2^63-1 refused, eof = a header read
+                               beyond the end of the file refused); answers REPAIRS <int63> <eof>.  Default 0 0 = the
+                               reader as it stands (Safety.decodeWholeVar Variant.current = Header.decodeWhole).
     FILE <hexfile>          -> sets the current file; answers  FILE <length>
     DEC <chunk>             -> decodeChunked chunk of the current file:
                                    OK <schema, vsize := recomputed len> | xsz beginVar beginRec recsize numRecVars
@@ -23,7 +28,20 @@ def showDecoded (r : Except Err (Hdr × Info)) : String :=
     let h' : Hdr := { h with vars := (h.vars.zip info.lens).map (fun (v, l) => { v with vsize := l }) }
     s!"OK {showSchema h'} | {info.xsz} {info.beginVar} {info.beginRec} {info.recsize} {info.numRecVars}"
 
-def step (fixed : Bool) (file : Bytes) (line : String) : String :=
+/-- the decoders of the tree's variant: FB2-1 (`fixed`, Header.fixInfo) on top of the C19 repairs `v` -/
+def decW (fixed : Bool) (v : Safety.Variant) (file : Bytes) : Except Err (Hdr × Info) :=
+  if v == Safety.Variant.current then decodeWholeV fixed file
+  else match Safety.decodeWholeVar v file with
+    | .error e => .error e
+    | .ok (h, info) => .ok (h, fixInfo fixed h info)
+
+def decC (fixed : Bool) (v : Safety.Variant) (chunk : Nat) (file : Bytes) : Except Err (Hdr × Info) :=
+  if v == Safety.Variant.current then decodeChunkedV fixed chunk file
+  else match Safety.decodeChunkedVar v chunk file with
+    | .error e => .error e
+    | .ok (h, info) => .ok (h, fixInfo fixed h info)
+
+def step (fixed : Bool) (v : Safety.Variant) (file : Bytes) (line : String) : String :=
   match tokens line.trimAscii.toString with
   | "ENC" :: ts =>
     match tSchema ts with
@@ -35,9 +53,9 @@ def step (fixed : Bool) (file : Bytes) (line : String) : String :=
       s!"{toHex (encodeRaw h)} {Hdr.len h} {o1} {o2} {o3}"
     | _ => "bad-schema"
   | ["DEC", c] =>
-    if c == "W" then showDecoded (decodeWholeV fixed file)
+    if c == "W" then showDecoded (decW fixed v file)
     else match c.toNat? with
-      | some chunk => showDecoded (decodeChunkedV fixed chunk file)
+      | some chunk => showDecoded (decC fixed v chunk file)
       | none => "bad-chunk"
   | ["SPEC"] =>
     match specDecode file with
@@ -45,20 +63,22 @@ def step (fixed : Bool) (file : Bytes) (line : String) : String :=
     | none => "NONE"
   | _ => "bad-op"
 
-partial def loop (h : IO.FS.Stream) (out : IO.FS.Stream) (fixed : Bool) (file : Bytes) : IO Unit := do
+partial def loop (h : IO.FS.Stream) (out : IO.FS.Stream) (fixed : Bool) (v : Safety.Variant) (file : Bytes) : IO Unit := do
   let line ← h.getLine
   if line.isEmpty then return ()
   match tokens line.trimAscii.toString with
   | ["FILE", hex] =>
     match ofHex hex with
-    | some f => out.putStrLn s!"FILE {f.length}"; loop h out fixed f
-    | none => out.putStrLn "bad-hex"; loop h out fixed file
-  | ["VARIANT", v] =>
-    out.putStrLn s!"VARIANT {v}"; loop h out (v == "1") file
+    | some f => out.putStrLn s!"FILE {f.length}"; loop h out fixed v f
+    | none => out.putStrLn "bad-hex"; loop h out fixed v file
+  | ["VARIANT", x] =>
+    out.putStrLn s!"VARIANT {x}"; loop h out (x == "1") v file
+  | ["REPAIRS", a, b] =>
+    out.putStrLn s!"REPAIRS {a} {b}"; loop h out fixed { int63 := (a == "1"), eof := (b == "1") } file
   | _ =>
-    out.putStrLn (step fixed file line)
-    loop h out fixed file
+    out.putStrLn (step fixed v file line)
+    loop h out fixed v file
 
 def main : IO Unit := do
   let out ← IO.getStdout
-  loop (← IO.getStdin) out false []
+  loop (← IO.getStdin) out false Safety.Variant.current []
